@@ -54,6 +54,10 @@ CHECKS = {
    text="For workload histories spread over several append files plus a rewrite file, the directory image after every file-system mutation of every compaction is recovered and compared with the recovery of the pre-compaction image; completed compactions are compared with the same history logged without compaction.",
    note="Trusted: instrumenter+runtime, vos FS-point numbering, the loader as differential reference. Concurrent appends during compaction not explored.",
    technique="exhaustive crash-point enumeration over the compaction's file-system mutations with differential recovery oracle"),
+ "C13": dict(level="exploration", design="4/C13",
+   text="Complete enumeration of a bounded grammar of client byte streams (binary frames of all command types, flag products, value frames of every length/op/stage/flag on four kinds of existing values, boundary value operations, nested/truncated pipelines, CALL frames, every registered text command with 0..6 arguments, malformed RESP, all chunkings of short streams and 1-/2-cut splits of representative frames), each played against a fresh full node next to a witness connection; any panic in a server thread is a crash.",
+   note="Trusted: instrumenter+runtime+vnet; the grammar bounds (no random/mutated streams claimed).",
+   technique="bounded exhaustive input enumeration against the implementation under the deterministic runtime (panic = crash, witness-connection oracle)"),
 }
 NA_DEFAULT = "check not built yet in this round (planned: see DESIGN.md section 4)"
 
